@@ -26,6 +26,8 @@ def gen(rng, ctx):
         # blackbox-free bundled netlists; for the super-circuit form the cone of one output
         name = rng.choice(["c17", "mux_2", "mux_4", "c17_gates"] + (["c432", "c880", "c499"] if big else ["c432"])) if ctx.gen_index else ["c17", "mux_4", "c432"][ctx.index % 3]
         return {"lib": name, "supercircuit": rng.random() < 0.4, "shape": "lib", "seed": rng.getrandbits(32)}
+    if rng.random() < 0.0007 or (ctx.gen_index == 1 and ctx.index < 4):
+        return gen_deep(rng, None if ctx.gen_index != 1 else ctx.index % 2 == 0)
     ni = rng.randint(2, 6 if not big else 8)
     ng = rng.randint(2, 10 if not big else 18)
     shape = rng.choice(["tree", "diamond", "random", "random", "multi", "wide", "chain"])
@@ -66,6 +68,33 @@ def gen(rng, ctx):
                 except ValueError:
                     pass
     return {"c": cd, "supercircuit": sup, "shape": shape}
+
+
+def gen_deep(rng, chain=None):
+    """Deeper than the interpreter's recursion limit: a chain of 1100..1500 buffers / inverters, or a ladder of
+    500..650 nested reconvergent blocks (x' = gate(buf x, not x, side input))."""
+    cd = G.new_cdict("deep")
+    cd["nodes"] += [["x", "input", False], ["s", "input", False]]
+    prev = "x"
+    if (rng.random() < 0.5) if chain is None else chain:
+        shape = "deep_chain"
+        for i in range(rng.randint(1100, 1500)):
+            cd["nodes"].append([f"d{i}", rng.choice(["buf", "not"]), False])
+            cd["edges"].append([prev, f"d{i}"])
+            prev = f"d{i}"
+        cd["nodes"].append(["o", "and", True])
+        cd["edges"] += [[prev, "o"], ["s", "o"]]
+    else:
+        shape = "deep_ladder"
+        for i in range(rng.randint(500, 650)):
+            a, b, y = f"a{i}", f"b{i}", f"y{i}"
+            cd["nodes"] += [[a, "buf", False], [b, "not", False], [y, rng.choice(["or", "nand", "xor"]), False]]
+            cd["edges"] += [[prev, a], [prev, b], [a, y], [b, y]]
+            if rng.random() < 0.3:
+                cd["edges"].append(["s", y])
+            prev = y
+        cd["nodes"][-1][2] = True
+    return {"c": cd, "supercircuit": rng.random() < 0.3, "shape": shape}
 
 
 def check(case, ctx):
@@ -270,4 +299,4 @@ def check(case, ctx):
 
 def gates(counters, table, tier):
     need = ["hostile_helper_names", "supercircuit:True", "supercircuit:False", "has_reconvergence", "internal_limit_fanin_observed", "supergates:1", "supergates:2", "supergates:3", "cmp:supercircuit"]
-    return [f"{k} seen {counters.get(k, 0)} times" for k in need if counters.get(k, 0) < 5]
+    return [f"{k} seen {counters.get(k, 0)} times" for k in need if counters.get(k, 0) < 5] + [f"{k} never seen" for k in ("shape:deep_chain", "shape:deep_ladder") if not counters.get(k)]
